@@ -80,5 +80,7 @@ SEEDED = [
     ("C13-11", "C13-ROWS"),
     ("C13-12", "C13-GRID"),
     ("C13-13", "C13-ODS"),
+    ("C13-14", "C13-TAIL"),
+    ("C13-15", "C13-STACK"),
 ]
 MUTANTS = list(MUTANTS) + [_P("seed-" + sid, _os.path.join(_SEEDS, sid, "patch.diff"), rule) for sid, rule in SEEDED if _os.path.exists(_os.path.join(_SEEDS, sid, "patch.diff"))]
